@@ -141,3 +141,54 @@ func reentrantCases(r *rand.Rand, st *Stats, n int, prefix string) []Case {
 	}
 	return cases
 }
+
+// bindings of an attempt that FAILED at an earlier start offset (C02): the last path tried there completes a binding
+// (right side of an `or`, an optional group, a lazy loop's body), the attempt fails as a whole, and a later start
+// offset matches along a path that does not bind the name — the match must not report it, a back-reference to it
+// must not match.  Texts are built so that the failing occurrence comes first and nothing is reported in between.
+func staleBindingCases(r *rand.Rand, st *Stats, n int, prefix string) []Case {
+	cases := []Case{}
+	for i := 0; i < n; i++ {
+		v := fmt.Sprintf("d%d", r.Intn(2))
+		term := []string{"'!'", "'-'", "';'"}[r.Intn(3)]
+		termS := strings.Trim(term, "'")
+		var body, failing, matching string
+		switch i % 6 {
+		case 0: // binding on the right of an or
+			body = fmt.Sprintf("(letter or (digit = %s)) %s", v, term)
+			failing, matching = "1?", "a"+termS
+		case 1: // … with a back-reference after it
+			body = fmt.Sprintf("('x' or (digit = %s)) %s %s", v, term, v)
+			failing, matching = "1+", "x"+termS+"1"
+		case 2: // optional group tried after the empty path failed? no: greedy maybe binds first, then fails, then skips
+			body = fmt.Sprintf("'a' maybe (digit = %s) fewest %s", v, term)
+			failing, matching = "a7?", "a"+termS
+		case 3: // lazy loop body binds, then the attempt fails
+			body = fmt.Sprintf("'a' at least 0 (letter = %s) fewest %s", v, term)
+			failing, matching = "abc?", "a"+termS
+		case 4: // named loop: the stale value would be a table
+			body = fmt.Sprintf("'a' (at least 0 (digit = %s) fewest named lp) %s", v, term)
+			failing, matching = "a12?", "a"+termS
+		default: // two names, one rebound by the match, one not
+			body = fmt.Sprintf("((letter = k) or (digit = %s)) %s", v, term)
+			failing, matching = "1?", "a"+termS
+		}
+		st.Features[fmt.Sprintf("stale-binding-%d", i%6)]++
+		src := "find all " + body
+		if r.Intn(4) == 0 {
+			src = "replace all " + body + " with '<' " + v + " '>'"
+		}
+		gaps := []string{" ", "", "\n", "  "}
+		texts := []string{
+			failing + gaps[r.Intn(len(gaps))] + matching,
+			failing + failing + " " + matching + " " + matching,
+			matching + " " + failing + " " + matching,
+			failing,
+		}
+		for j, text := range texts {
+			cases = append(cases, Case{ID: fmt.Sprintf("%s%d.%d", prefix, i, j), Op: "run",
+				Fields: []string{hx(src), hx(text)}, Meta: map[string]string{}})
+		}
+	}
+	return cases
+}
